@@ -38,6 +38,20 @@ def templates():
     t.append(("via-alias", False, ('fn', 'f', P, 'int', [('let', 'h', V('f'), None)], C('if', base, V('acc'), C('h', C('sub', V('n'), I(1)), C('add', V('acc'), V('n')))))))
     t.append(("if_error-first", False, ('fn', 'f', P, 'int', [], C('if', base, V('acc'), C('if_error', rec, I(-1))))))
     t.append(("display-of", False, ('fn', 'f', P, 'int', [], C('if', base, V('acc'), C('neg', C('neg', rec))))))
+    # optional parameters: a tail self-call that omits a defaulted parameter gets the DEFAULT again in the next
+    # iteration (as an ordinary call would), whatever the outer caller or an earlier iteration passed
+    Pd = [('n', 'int', None), ('acc', 'int', None), ('bonus', 'int', I(100))]
+    recd = C('tdd', C('sub', V('n'), I(1)), C('add', V('acc'), V('n')))
+    t.append(("default-omitted", True, ('fn', 'tdd', Pd, 'int', [], C('if', base, C('add', V('acc'), V('bonus')), recd)), 'tdd',
+              lambda n: C('tdd', I(n), I(0), I(7))))
+    t.append(("default-omitted-nontail", False, ('fn', 'tdd', Pd, 'int', [], C('if', base, C('add', V('acc'), V('bonus')), C('add', I(0), recd))), 'tdd',
+              lambda n: C('tdd', I(n), I(0), I(7))))
+    # the defaulted parameter is passed explicitly by every second iteration only
+    rece = C('tde', C('sub', V('n'), I(1)), C('add', V('acc'), V('bonus')), C('add', V('bonus'), I(1)))
+    recf = C('tde', C('sub', V('n'), I(1)), C('add', V('acc'), V('bonus')))
+    Pe = [('n', 'int', None), ('acc', 'int', None), ('bonus', 'int', I(1000))]
+    t.append(("default-alternating", True, ('fn', 'tde', Pe, 'int', [], C('if', base, V('acc'), C('if', C('eq', C('mod', V('n'), I(2)), I(0)), rece, recf))), 'tde',
+              lambda n: C('tde', I(n), I(0))))
     return t
 
 
@@ -45,7 +59,10 @@ def build(tmpl, n):
     name, is_tail, fn = tmpl[0], tmpl[1], tmpl[2]
     gname = tmpl[3] if len(tmpl) > 3 else 'f'
     idf = ('fn', 'idf', [('x', 'int', None)], 'int', [], V('x'))
-    call = C('g', I(n)) if gname == 'g' else C('f', I(n), I(0))
+    if len(tmpl) > 4:
+        call = tmpl[4](n)
+    else:
+        call = C('g', I(n)) if gname == 'g' else C('f', I(n), I(0))
     return cg.ERR_PRELUDE + [idf, fn, ('let', 'r', call, None)]
 
 
@@ -97,10 +114,10 @@ def run(chk):
         tm = rng.choice(templates())
         n = rng.choice([0, 1, 7, 40])
         ds = build(tm, n)[:-1] + g.program(rng.choice([2, 4]))
-        extra.append(Case(ds + [('let', 'r', C('g', I(n)) if len(tm) > 3 else C('f', I(n), I(0)), None)], "mixed", printer_rng=rng,
+        extra.append(Case(ds + [build(tm, n)[-1]], "mixed", printer_rng=rng,
                           depth=rng.choice([None, None, 6, 30]), rec=rng.choice([None, None, 3, 50])))
     three_way(chk, extra, "c07", nontrivial=lambda c, ev: ev.max_rec > 0)
-    return chk.finish(rule="recursive templates with the self-call in 14 syntactic positions (6 tail, 8 non-tail) x iteration counts 0..20000 (thorough 100000) "
+    return chk.finish(rule="recursive templates with the self-call in 17 syntactic positions / parameter shapes (8 tail, 9 non-tail, incl. defaulted parameters omitted by the tail call) x iteration counts 0..20000 (thorough 100000) "
                            "x {no limit, depth limit 8, recursion limits 5/n/n-1, call limit 3}, plus random programs with such helpers mixed in; "
                            "non-trivial = at least one tail iteration or call depth > 2; distinct by source text + limits")
 
